@@ -3,6 +3,7 @@ from . import gateway_units as gu, codec_native as cn
 from .common import BASE_TRUSTED
 
 PROP = "C01"
+ASSUMPTION_CHECKS = ['A-STR', 'A-MM']
 MIN_OBLIGATIONS = 100
 TRUSTED = BASE_TRUSTED + [
     "A-MM: marshmallow 3.26 Schema.load/dump loop as modelled in pyvc/mmalgo.py (hooks and custom fields are the repository's own code)",
